@@ -27,7 +27,8 @@ type Config struct {
 	MapOrderFuncs   []string // functions in which map iteration order is arbitrary
 	Solver          string
 	Tier            string // quick | thorough
-	PoolReuse       bool   // sync.Pool.Get may return any previously Put object
+	PoolReuse       bool   // sync.Pool.Get may return any previously Put object (arbitrary choice)
+	PoolLIFO        bool   // sync.Pool.Get returns the most recently Put object when there is one (deterministic reuse)
 }
 
 func DefaultConfig() Config {
